@@ -9,7 +9,7 @@ import (
 )
 
 // YAMLHostile are strings an untagged YAML scalar re-types (YAML 1.1 / 1.2 differences included).
-var YAMLHostile = []string{"yes", "no", "on", "off", "y", "n", "true", "false", "null", "~", "123", "-7", "0x1F", "0o17", "012", "1e3", "1.5", ".inf", ".nan", "1:30", "2001-01-01", "1_000", "", " lead", "a: b", "#c", "[x]", "{y}", "*s", "&a", "!t", "|", ">", "'q", "\"dq", "%p", "@at", "`bt"}
+var YAMLHostile = []string{"yes", "no", "on", "off", "y", "n", "true", "false", "null", "~", "123", "-7", "0x1F", "0o17", "012", "1e3", "1.5", ".inf", ".nan", "1:30", "2001-01-01", "2024-01-15T10:30:00Z", "2001-12-14 21:59:43.10 -5", "2001-12-14t21:59:43.10-05:00", "1_000", "", " lead", "a: b", "#c", "[x]", "{y}", "*s", "&a", "!t", "|", ">", "'q", "\"dq", "%p", "@at", "`bt"}
 
 // OAOpts steer GenOAFile.
 type OAOpts struct {
@@ -105,14 +105,15 @@ func GenOAFile(r *R, idx int, o OAOpts) (*ir.Request, []string) {
 	if o.on("hostile_values", r, 1, 3) {
 		tag("hostile_values")
 		e := &ir.Enum{Name: "Mode", Values: []ir.EnumValue{{Name: "MODE_UNSPECIFIED", Number: 0}, {Name: "MODE_A", Number: 1}, {Name: "MODE_B", Number: 2}}}
-		e.Values[1].Custom = sp(Pick(r, YAMLHostile))
-		e.Values[2].Custom = sp(Pick(r, YAMLHostile))
+		// walk through the list by schema index: every value is used within len/3 hostile schemas
+		e.Values[1].Custom = sp(YAMLHostile[(3*idx)%len(YAMLHostile)])
+		e.Values[2].Custom = sp(YAMLHostile[(3*idx+1)%len(YAMLHostile)])
 		if *e.Values[1].Custom == *e.Values[2].Custom {
 			e.Values[2].Custom = sp("plain")
 		}
 		f.Enums = append(f.Enums, e)
 		hv := &ir.Message{Name: "Hostile", Fields: []*ir.Field{{Name: "mode", Number: 1, Kind: "enum", TypeName: P + "Mode"},
-			{Name: "as_text", Number: 2, Kind: "string", Oneof: "pick", Ann: ir.Ann{OneofValue: sp(Pick(r, YAMLHostile))}},
+			{Name: "as_text", Number: 2, Kind: "string", Oneof: "pick", Ann: ir.Ann{OneofValue: sp(YAMLHostile[(3*idx+2)%len(YAMLHostile)])}},
 			{Name: "as_leaf", Number: 3, Kind: "message", TypeName: P + "OaLeaf", Oneof: "pick"}},
 			Oneofs: []*ir.Oneof{{Name: "pick", Discriminator: sp("kind")}}}
 		if hv.Fields[1].Ann.OneofValue != nil && *hv.Fields[1].Ann.OneofValue == "" {
